@@ -68,6 +68,69 @@ fn expected(dir: &Path, src: &str, prefix: &str, format: bool) -> Option<Vec<u8>
     }
 }
 
+/// directory mode with two grammar files (spec/BuildScriptDir.tla): steps e:<file>:<src> | d:<file> | r
+fn replay_dir2(dir: &Path, steps: &str) -> String {
+    let _ = std::fs::remove_dir_all(dir);
+    std::fs::create_dir_all(dir.join("src")).unwrap();
+    let files = ["a", "b"];
+    let mut src: std::collections::HashMap<&str, String> = files.iter().map(|f| (*f, "g1".to_string())).collect();
+    let text = |g: &str| -> &'static str {
+        match g {
+            "bad" => "@export\nA = 'a' (;\n",
+            other => grammar_text(other).unwrap(),
+        }
+    };
+    for f in files {
+        std::fs::write(dir.join("src").join(format!("{f}.ebnf")), text("g1")).unwrap();
+    }
+    let mut runs = String::new();
+    for (i, st) in steps.split(';').enumerate() {
+        let parts: Vec<&str> = st.split(':').collect();
+        match parts[0] {
+            "e" => {
+                let f = files.iter().find(|x| **x == parts[1]).unwrap();
+                src.insert(f, parts[2].to_string());
+                std::fs::write(dir.join("src").join(format!("{f}.ebnf")), text(parts[2])).unwrap();
+            }
+            "d" => {
+                let _ = std::fs::remove_file(dir.join("src").join(format!("{}.rs", parts[1])));
+            }
+            "r" => {
+                let before: Vec<Option<Vec<u8>>> =
+                    files.iter().map(|f| std::fs::read(dir.join("src").join(format!("{f}.rs"))).ok()).collect();
+                let res = std::panic::catch_unwind(std::panic::AssertUnwindSafe(|| Compile::directory(dir.join("src")).run()));
+                let (ok, panicked) = match &res {
+                    Ok(Ok(())) => (true, false),
+                    Ok(Err(_)) => (false, false),
+                    Err(_) => (false, true),
+                };
+                let mut fjs = String::new();
+                for (k, f) in files.iter().enumerate() {
+                    let after = std::fs::read(dir.join("src").join(format!("{f}.rs"))).ok();
+                    let exp = expected(dir, &src[f], "", false);
+                    if k > 0 {
+                        fjs.push(',');
+                    }
+                    fjs.push_str(&format!(
+                        "\"{}\":{{\"src\":\"{}\",\"valid\":{},\"fresh\":{},\"same\":{}}}",
+                        f,
+                        src[f],
+                        exp.is_some(),
+                        after.is_some() && after == exp,
+                        after == before[k]
+                    ));
+                }
+                if !runs.is_empty() {
+                    runs.push(',');
+                }
+                runs.push_str(&format!("{{\"i\":{},\"ok\":{},\"panic\":{},\"files\":{{{}}}}}", i, ok, panicked, fjs));
+            }
+            _ => {}
+        }
+    }
+    format!("{{\"runs\":[{}]}}", runs)
+}
+
 fn main() {
     let args: Vec<String> = std::env::args().collect();
     let f = std::fs::File::open(&args[1]).unwrap();
@@ -79,6 +142,11 @@ fn main() {
         let line = line.unwrap();
         let p: Vec<&str> = line.split('\t').collect();
         let (mode, format, steps) = (p[0], p[1] == "1", p[2]);
+        if mode == "dir2" {
+            let dir = root.join(format!("d{}", n % 64));
+            writeln!(out, "{}", replay_dir2(&dir, steps)).unwrap();
+            continue;
+        }
         let dir = root.join(format!("h{}", n % 64));
         let _ = std::fs::remove_dir_all(&dir);
         std::fs::create_dir_all(dir.join("src")).unwrap();
